@@ -41,23 +41,34 @@ def meta(user=b'', desc=b'', ext=None):
 class Hist:
     """Drives a storage through its public API and records the model."""
 
-    def __init__(self, storage, model=None):
+    def __init__(self, storage, model=None, fs=None):
+        self.fs = fs                     # VFS to drop begin/returned markers into (crash harnesses)
         self.s = storage
         self.m = model if model is not None else RevStore()
         self.serial = {}                 # oid -> tid of the revision the "client" last saw
         self.tids = []
         self.log = []                    # human-readable script of what was done (for evidence)
 
+    def _b(self):
+        if self.fs is not None:
+            self.fs.mark('begin', len(self.m.txns))
+
+    def _r(self):
+        if self.fs is not None:
+            self.fs.mark('returned', len(self.m.txns))
+
     # -- commits ------------------------------------------------------------
     def commit(self, recs, user=b'', desc=b'', ext=None):
         """recs: list of (oid, data). Each store uses the client's known serial."""
         s = self.s
         t = meta(user, desc, ext)
+        self._b()
         s.tpc_begin(t)
         for o, data in recs:
             s.store(o, self.serial.get(o, Z64), data, '', t)
         s.tpc_vote(t)
         tid = s.tpc_finish(t)
+        self._r()
         self.m.add(MTxn(tid, [MRec(o, d) for o, d in recs], user, desc, ext))
         for o, _ in recs:
             self.serial[o] = tid
@@ -71,10 +82,12 @@ class Hist:
     def delete(self, o):
         s = self.s
         t = meta()
+        self._b()
         s.tpc_begin(t)
         s.deleteObject(o, self.serial[o], t)
         s.tpc_vote(t)
         tid = s.tpc_finish(t)
+        self._r()
         self.m.add(MTxn(tid, [MRec(o, None, 0)], kind='delete'))
         self.serial[o] = tid
         self.tids.append(tid)
@@ -87,10 +100,12 @@ class Hist:
         import base64
         s = self.s
         t = meta(user, desc)
+        self._b()
         s.tpc_begin(t)
         s.undo(base64.encodebytes(tid).rstrip(), t)
         s.tpc_vote(t)
         new = s.tpc_finish(t)
+        self._r()
         target = self.m.txn(tid)
         recs = []
         for r in target.written():
@@ -124,6 +139,7 @@ class Hist:
         """Copy-in of a transaction with an explicit tid: recs = [(oid, data|None, prev_txn|None)]."""
         s = self.s
         t = meta(user, desc, ext)
+        self._b()
         s.tpc_begin(t, tid, status)
         mrecs = []
         for o, data, prev_txn in recs:
@@ -141,6 +157,7 @@ class Hist:
                 mrecs.append(MRec(o, data, size, dtx))
         s.tpc_vote(t)
         got = s.tpc_finish(t)
+        self._r()
         assert got == tid
         self.m.add(MTxn(tid, mrecs, user, desc, ext, status=status, kind='restore'))
         for o, _, _ in recs:
@@ -221,10 +238,10 @@ FILE_TEMPLATES = {'T1': T1, 'T2': T2, 'T3': T3, 'T4': T4, 'T5': T5, 'T6': T6, 'T
 MAPPING_TEMPLATES = {'T1': T1, 'T2': T2, 'T3': T3}
 
 
-def build_file(name, env=None, **kw):
+def build_file(name, env=None, marks=False, **kw):
     env = env or Env()
     s = env.filestorage(**kw)
-    h = Hist(s)
+    h = Hist(s, fs=env.fs if marks else None)
     FILE_TEMPLATES[name](h)
     return env, s, h
 
